@@ -216,7 +216,7 @@ def replay_entries(rep):
 def main(tier):
     common.build()
     rep = Report(PROP, tier, 'exploration')
-    count, k, t, nproc = (120, 8, 8, 2) if tier == 'quick' else (2500, 40, 16, 3)
+    count, k, t, nproc = (120, 8, 8, 2) if tier == 'quick' else (800, 30, 16, 3)
     rep.rule = (f'one evaluation = one (program, annotate flag): K={k} sequential runs in one process + T={t} concurrent threads + a run after a conflicting program in the '
                 f'same process + P={nproc} fresh processes, all on identical arguments; held iff one verdict and one byte-identical output; distinct = distinct (origin, verdict, flag, '
                 'output-size bucket); non-trivial = at least K+T runs were compared')
